@@ -6,7 +6,9 @@ use crate::tree::method::code::{Label, LabelRange};
 pub(crate) struct Labels {
 	code_length: u16,
 	labels: HashMap<u16, Label>,
-	max_id: u16,
+	/// The number of labels handed out so far. There are at most 65536 distinct bytecode offsets (`0..=65535`),
+	/// so the ids `0..=65535` always fit into the `u16` of a [`Label`], but the counter itself must be able to hold 65536.
+	max_id: u32,
 }
 
 impl Labels {
@@ -20,7 +22,8 @@ impl Labels {
 
 	fn get_or_add_unchecked(&mut self, pc: u16) -> &mut Label {
 		self.labels.entry(pc).or_insert_with(|| {
-			let label = Label { id: self.max_id };
+			// can't truncate: an entry is only inserted for a new `u16` key, see the comment on `max_id`
+			let label = Label { id: self.max_id as u16 };
 			self.max_id += 1;
 			label
 		})
